@@ -2,6 +2,8 @@ import FeatherModel.Model.VersionGraph
 import FeatherModel.Lemmas.VersionGraph
 import FeatherModel.Lemmas.VersionGraphPaths
 import FeatherModel.Lemmas.VersionGraphScan
+import FeatherModel.Lemmas.VersionGraphAlias
+import FeatherModel.Lemmas.VersionGraphPerm
 
 /-!
 # C05 — version graph resolves each version to root plus the diffs on its path
@@ -14,10 +16,16 @@ Vocabulary (all in `Model/VersionGraph.lean`):
   unit weights is assumed to return some shortest path; which one is not specified), `[]` = "there is no path";
 * `IsPath g a b p` — `p` is a chain of edges from `a` to `b`; `live g` — the edges `find_edge` can return.
 
-`WellFormedDir` (the proved domain of the order-independence and lookup theorems) says that no two *different* version
-strings of the directory share a lookup key (a plain name, or either half of `client~server`). Outside it the code
-silently aliases the later string to the earlier node, so the graph depends on the listing order
-(`resolve_perm_collision_witness`); this is why those theorems carry the suffix `_partial`.
+What the file names of a directory *say* (functions of the set of files, `Model/VersionGraph.lean`): `dirVersions` (the
+version strings: file stems, both sides of `#`), `nodeStrings` (those that name a node: every `client~server` string, and
+every plain string that is not a half of one), `nodeOf` (the node a version string stands for: a plain string that is a
+half of a `client~server` string of the directory is an *alias* of that node), `nodeEdges`, `dirRoots`;
+`Ambiguous` (two different `client~server` strings share a half) and `DupEdges` (two diff files join the same ordered pair
+of nodes) are the two new ways a directory can be rejected.
+
+`resolve` first sorts the listing, registers every `client~server` string, and only then walks over the files: the graph
+is a function of the set of files (`resolve_perm`, all directories, no hypothesis), and of a real directory (no two
+entries with the same name) even literally the same value in every listing order (`resolve_perm_eq`).
 -/
 
 namespace Thm.C05
@@ -28,10 +36,10 @@ variable {M D : Type}
 /-! ## `resolve` unfolded -/
 
 theorem resolve_some {c : Content M D} {dir : List (JStr × Bytes)} {r : Resolved M} (h : resolve c dir = some r) :
-    ∃ rb, addFiles Graph.empty dir = some r.graph ∧ r.graph.root = some (r.rootName, rb) ∧
+    ∃ rb, scan dir = some r.graph ∧ r.graph.root = some (r.rootName, rb) ∧
       c.readRoot rb = some r.rootMapping ∧ walkOk r.graph (r.graph.edges.length + 1) [] r.rootName = true := by
   unfold resolve at h
-  cases ha : addFiles Graph.empty dir with
+  cases ha : scan dir with
   | none => rw [ha] at h; simp at h
   | some g =>
     rw [ha] at h; simp only at h
@@ -52,7 +60,7 @@ theorem resolve_some {c : Content M D} {dir : List (JStr × Bytes)} {r : Resolve
         · simp at h
 
 theorem resolve_of_scan (c : Content M D) {dir : List (JStr × Bytes)} {g : Graph}
-    (ha : addFiles Graph.empty dir = some g) :
+    (ha : scan dir = some g) :
     resolve c dir =
       match g.root with
       | none => none
@@ -218,150 +226,262 @@ theorem tree_unique_path {g : Graph} {root : JStr}
         have := ih e'.parent p' q' (by simpa using hn) hp1 hq1
         rw [this, List.concat_eq_append]
 
-/-! ## Graph construction does not depend on the directory listing order -/
+/-! ## The scan: closed form, errors -/
 
-/-- well-formed directory: no two different version strings (file stems, both sides of `#`) share a lookup key
-(a plain name, or either half of `client~server`) -/
-def WellFormedDir (dir : List (JStr × Bytes)) : Prop := KeysDisjoint (dirVersions dir)
+/-- closed form of the scan in terms of what the file names of `dir` say, for EVERY directory and listing order (the
+sorted listing `resolve` works on is a permutation of `dir`) -/
+theorem scan_spec (dir : List (JStr × Bytes)) :
+    match scan dir with
+    | some g => dir.any badDiffName = false ∧ KeysDisjoint (splitsOf (dirVersions dir)) ∧
+        (dirRoots dir).length ≤ 1 ∧ (pairs (nodeEdges dir)).Nodup ∧
+        VersionsSpec g (nodeStrings (dirVersions dir)) ∧ NodesSpec g (nodeStrings (dirVersions dir)) ∧
+        g.edges.Perm (nodeEdges dir) ∧ g.root = ((dirRoots dir).map (rootAt (dirVersions dir))).head?
+    | none => dir.any badDiffName = true ∨ ¬ KeysDisjoint (splitsOf (dirVersions dir)) ∨
+        2 ≤ (dirRoots dir).length ∨ ¬ (pairs (nodeEdges dir)).Nodup :=
+  scanListed_spec_perm (sortFiles_perm dir)
 
-/-- the domain predicate is decidable (the driver and the harness evaluate it on every generated directory) -/
-theorem wellFormed_decidable (dir : List (JStr × Bytes)) :
-    keysDisjointB (dirVersions dir) = true ↔ WellFormedDir dir :=
-  keysDisjointB_iff _
+/-- **the scan fails exactly for four reasons** (any directory, any listing order): a `.tinydiff` stem without `#`, an
+ambiguous half, a second `.tiny` file, a second diff for an edge -/
+theorem scan_error_iff (dir : List (JStr × Bytes)) :
+    scan dir = none ↔ (dir.any badDiffName = true ∨ Ambiguous (dirVersions dir) ∨ 2 ≤ (dirRoots dir).length ∨
+      DupEdges dir) := by
+  have h := scan_spec dir
+  constructor
+  · intro hs
+    rw [hs] at h
+    exact h
+  · intro hr
+    cases hs : scan dir with
+    | none => rfl
+    | some g =>
+      rw [hs] at h
+      simp only at h
+      obtain ⟨h1, h2, h3, h4, _⟩ := h
+      rcases hr with h' | h' | h' | h'
+      · rw [h1] at h'; simp at h'
+      · exact absurd h2 h'
+      · omega
+      · exact absurd h4 h'
 
-/-- closed form of the graph built from a well-formed directory: the lookup table, the edges and the root are given by
-the *set* of files, not by the order in which `read_dir` lists them -/
-theorem graph_closed_form {dir : List (JStr × Bytes)} {g : Graph} (hwf : WellFormedDir dir)
-    (h : addFiles Graph.empty dir = some g) :
-    (∀ k sp n, AList.lookup k g.versions = some (sp, n) ↔ (n ∈ dirVersions dir ∧ keyKind k n = some sp)) ∧
-    g.edges = dirEdges dir ∧
-    ((dirRoots dir = [] ∧ g.root = none) ∨ (∃ r, dirRoots dir = [r] ∧ g.root = some r)) := by
-  obtain ⟨⟨seen', hseen, hspec⟩, he, hr⟩ :=
-    addFiles_spec dir versionsSpec_empty (by simpa [WellFormedDir] using hwf) h
-  refine ⟨?_, by simpa [Graph.empty] using he, by simpa [Graph.empty] using hr⟩
-  intro k sp n
-  rw [hspec k sp n, hseen n]
-  simp
+/-- `Ambiguous` spelled out: two different `client~server` version strings of the directory have a half in common
+(`a~b` with `c~b`, `a~c`, `b~c`, `b~a`, `a~a`, …) -/
+theorem ambiguous_iff (vss : List JStr) :
+    Ambiguous vss ↔ ∃ v1 v2 k, v1 ∈ vss ∧ v2 ∈ vss ∧ isSplit v1 = true ∧ isSplit v2 = true ∧ v1 ≠ v2 ∧
+      k ∈ keysOf v1 ∧ k ∈ keysOf v2 := by
+  constructor
+  · intro h
+    cases Classical.em (∃ v1 v2 k, v1 ∈ vss ∧ v2 ∈ vss ∧ isSplit v1 = true ∧ isSplit v2 = true ∧ v1 ≠ v2 ∧
+        k ∈ keysOf v1 ∧ k ∈ keysOf v2) with
+    | inl h' => exact h'
+    | inr h' =>
+      exfalso
+      apply h
+      intro v1 h1 v2 h2 hne k hk hk2
+      obtain ⟨m1, s1⟩ := mem_splitsOf.mp h1
+      obtain ⟨m2, s2⟩ := mem_splitsOf.mp h2
+      exact h' ⟨v1, v2, k, m1, m2, s1, s2, hne, hk, hk2⟩
+  · intro ⟨v1, v2, k, m1, m2, s1, s2, hne, hk, hk2⟩ hd
+    exact hd v1 (mem_splitsOf.mpr ⟨m1, s1⟩) v2 (mem_splitsOf.mpr ⟨m2, s2⟩) hne k hk hk2
 
-/-- **every plain version is reachable under its name and every `client~server` version under either half**
-(`_partial`: on well-formed directories; with a shared key only one of the colliding versions can own it) -/
-theorem lookup_names_partial {dir : List (JStr × Bytes)} {g : Graph} (hwf : WellFormedDir dir)
-    (h : addFiles Graph.empty dir = some g) {vs : JStr} (hvs : vs ∈ dirVersions dir) :
-    (splitOnce TILDE vs = none → AList.lookup vs g.versions = some (Split.none, vs)) ∧
+/-- the predicates of the error characterisation are decidable (the driver and the harness evaluate them) -/
+theorem ambiguous_decidable (vss : List JStr) : ambiguousB vss = true ↔ Ambiguous vss := by
+  unfold ambiguousB Ambiguous
+  rw [← keysDisjointB_iff]
+  cases keysDisjointB (splitsOf vss) <;> simp
+
+theorem distinctB_iff {α : Type} [BEq α] [LawfulBEq α] : ∀ (l : List α), distinctB l = true ↔ l.Nodup := by
+  intro l
+  induction l with
+  | nil => simp [distinctB]
+  | cons x xs ih => simp [distinctB, ih]
+
+theorem dupEdges_decidable (dir : List (JStr × Bytes)) : dupEdgesB dir = true ↔ DupEdges dir := by
+  unfold dupEdgesB DupEdges
+  rw [← distinctB_iff]
+  cases distinctB (List.map (fun e => (e.parent, e.child)) (nodeEdges dir)) <;> simp
+
+/-- closed form of the graph of ANY directory that scans: the lookup table holds exactly the node strings, each under its
+keys; the nodes are the node strings (each once); the edges are those of the diff files between the nodes their two
+version strings stand for; the root is the node of the one `.tiny` file -/
+theorem graph_closed_form {dir : List (JStr × Bytes)} {g : Graph} (h : scan dir = some g) :
+    (∀ k sp n, AList.lookup k g.versions = some (sp, n) ↔ (n ∈ nodeStrings (dirVersions dir) ∧ keyKind k n = some sp)) ∧
+    (∀ n, n ∈ g.nodes ↔ n ∈ nodeStrings (dirVersions dir)) ∧ g.nodes.Nodup ∧
+    g.edges.Perm (nodeEdges dir) ∧
+    ((dirRoots dir = [] ∧ g.root = none) ∨
+      (∃ r, dirRoots dir = [r] ∧ g.root = some (nodeOf (dirVersions dir) r.1, r.2))) := by
+  have hs := scan_spec dir
+  rw [h] at hs
+  simp only at hs
+  obtain ⟨_, _, h3, _, h5, h6, h7, h8⟩ := hs
+  refine ⟨h5, h6.1, h6.2, h7, ?_⟩
+  cases hr : dirRoots dir with
+  | nil => left; rw [hr] at h8; exact ⟨rfl, h8⟩
+  | cons r rest =>
+    cases rest with
+    | nil => right; rw [hr] at h8; exact ⟨r, rfl, h8⟩
+    | cons r2 rest2 => rw [hr] at h3; simp at h3
+
+/-- a resolved graph never has two edges for one ordered pair of nodes (`find_edge` has nothing to choose) -/
+theorem scanned_noParallel {dir : List (JStr × Bytes)} {g : Graph} (h : scan dir = some g) : NoParallel g := by
+  have hs := scan_spec dir
+  rw [h] at hs
+  simp only at hs
+  obtain ⟨_, _, _, h4, _, _, h7, _⟩ := hs
+  have hnd : (pairs g.edges).Nodup := (pairs_perm h7).nodup_iff.mpr h4
+  intro e1 h1 e2 h2 hp hc
+  exact nodup_map_inj hnd h1 h2 (by simp [hp, hc])
+
+/-- **every plain version is reachable under its name and every `client~server` version under either half** — full
+strength, every directory that scans. A plain string that is a half of a `client~server` string of the directory is an
+alias of that version (with the `Split` of the half), whatever file comes first -/
+theorem lookup_names {dir : List (JStr × Bytes)} {g : Graph} (h : scan dir = some g) {vs : JStr}
+    (hvs : vs ∈ dirVersions dir) :
+    (splitOnce TILDE vs = none →
+      AList.lookup vs g.versions =
+        match ownerOf (dirVersions dir) vs with
+        | some (sp, n) => some (sp, n)
+        | none => some (Split.none, vs)) ∧
     (∀ c s, splitOnce TILDE vs = some (c, s) →
       AList.lookup c g.versions = some (Split.first, vs) ∧
       (s ≠ c → AList.lookup s g.versions = some (Split.second, vs))) := by
-  obtain ⟨hl, _, _⟩ := graph_closed_form hwf h
+  obtain ⟨hl, _, _, _, _⟩ := graph_closed_form h
   constructor
   · intro hs
-    exact (hl vs Split.none vs).mpr ⟨hvs, by simp [keyKind, hs]⟩
+    cases ho : ownerOf (dirVersions dir) vs with
+    | some q =>
+      obtain ⟨sp, n⟩ := q
+      obtain ⟨hn, hk⟩ := ownerOf_some ho
+      obtain ⟨hm, hsp⟩ := mem_splitsOf.mp hn
+      exact (hl vs sp n).mpr ⟨mem_nodeStrings.mpr ⟨hm, Or.inl hsp⟩, hk⟩
+    | none =>
+      exact (hl vs Split.none vs).mpr ⟨mem_nodeStrings.mpr ⟨hvs, Or.inr ho⟩, by simp [keyKind, hs]⟩
   · intro c s hs
-    exact ⟨(hl c Split.first vs).mpr ⟨hvs, by simp [keyKind, hs]⟩,
-      fun hne => (hl s Split.second vs).mpr ⟨hvs, by simp [keyKind, hs, hne]⟩⟩
+    have hns : vs ∈ nodeStrings (dirVersions dir) :=
+      mem_nodeStrings.mpr ⟨hvs, Or.inl (isSplit_iff.mpr ⟨_, hs⟩)⟩
+    exact ⟨(hl c Split.first vs).mpr ⟨hns, by simp [keyKind, hs]⟩,
+      fun hne => (hl s Split.second vs).mpr ⟨hns, by simp [keyKind, hs, hne]⟩⟩
+
+/-- the node a version string of a file name stands for is a node of the graph, and is what the lookup of its first key
+yields -/
+theorem nodeOf_is_node {dir : List (JStr × Bytes)} {g : Graph} (h : scan dir = some g) {vs : JStr}
+    (hvs : vs ∈ dirVersions dir) : nodeOf (dirVersions dir) vs ∈ g.nodes := by
+  obtain ⟨_, hn, _, _, _⟩ := graph_closed_form h
+  rw [hn]
+  unfold nodeOf
+  cases hsp : isSplit vs with
+  | true => simp only [if_true]; exact mem_nodeStrings.mpr ⟨hvs, Or.inl hsp⟩
+  | false =>
+    simp only [Bool.false_eq_true, if_false]
+    cases ho : ownerOf (dirVersions dir) vs with
+    | none => exact mem_nodeStrings.mpr ⟨hvs, Or.inr ho⟩
+    | some q =>
+      obtain ⟨sp, n⟩ := q
+      obtain ⟨hm, hs⟩ := mem_splitsOf.mp (ownerOf_some ho).1
+      exact mem_nodeStrings.mpr ⟨hm, Or.inl hs⟩
 
 /-- **unknown version**: a name that is no key of any version string of the directory is unknown (`get` fails) -/
-theorem unknown_version {dir : List (JStr × Bytes)} {g : Graph} (hwf : WellFormedDir dir)
-    (h : addFiles Graph.empty dir = some g) {k : JStr}
+theorem unknown_version {dir : List (JStr × Bytes)} {g : Graph} (h : scan dir = some g) {k : JStr}
     (hk : ∀ n, n ∈ dirVersions dir → keyKind k n = none) : AList.lookup k g.versions = none := by
-  obtain ⟨hl, _, _⟩ := graph_closed_form hwf h
+  obtain ⟨hl, _, _, _, _⟩ := graph_closed_form h
   cases hq : AList.lookup k g.versions with
   | none => rfl
   | some q =>
     obtain ⟨sp, n⟩ := q
     obtain ⟨hn, hkk⟩ := (hl k sp n).mp hq
-    rw [hk n hn] at hkk
+    rw [hk n (mem_nodeStrings.mp hn).1] at hkk
     simp at hkk
 
+/-! ## Graph construction does not depend on the directory listing order -/
+
 theorem dirVersions_perm {d d' : List (JStr × Bytes)} (hp : d'.Perm d) (n : JStr) :
-    n ∈ dirVersions d' ↔ n ∈ dirVersions d := by
-  simp only [dirVersions, List.mem_flatMap]
-  constructor
-  · intro ⟨f, hf, hn⟩; exact ⟨f, hp.mem_iff.mp hf, hn⟩
-  · intro ⟨f, hf, hn⟩; exact ⟨f, hp.mem_iff.mpr hf, hn⟩
+    n ∈ dirVersions d' ↔ n ∈ dirVersions d := dirVersions_mem_perm hp n
 
-theorem wellFormed_perm {dir dir' : List (JStr × Bytes)} (hp : dir'.Perm dir) (hwf : WellFormedDir dir) :
-    WellFormedDir dir' := by
-  intro v1 h1 v2 h2 hne k hk
-  exact hwf v1 ((dirVersions_perm hp v1).mp h1) v2 ((dirVersions_perm hp v2).mp h2) hne k hk
+/-- each of the four reasons is a property of the set of files -/
+theorem scan_error_perm {dir dir' : List (JStr × Bytes)} (hp : dir'.Perm dir) : scan dir' = none ↔ scan dir = none := by
+  have h := scanListed_spec_perm ((sortFiles_perm dir').trans hp)
+  have h0 := scan_spec dir
+  unfold scan at h0 ⊢
+  cases hs' : scanListed (sortFiles dir') with
+  | none =>
+    rw [hs'] at h
+    simp only at h
+    cases hs : scanListed (sortFiles dir) with
+    | none => simp
+    | some g =>
+      rw [hs] at h0
+      simp only at h0
+      obtain ⟨h1, h2, h3, h4, _⟩ := h0
+      rcases h with h | h | h | h
+      · rw [h1] at h; simp at h
+      · exact absurd h2 h
+      · omega
+      · exact absurd h4 h
+  | some g' =>
+    rw [hs'] at h
+    simp only at h
+    obtain ⟨h1, h2, h3, h4, _⟩ := h
+    cases hs : scanListed (sortFiles dir) with
+    | some g => simp
+    | none =>
+      rw [hs] at h0
+      simp only at h0
+      rcases h0 with h | h | h | h
+      · rw [h1] at h; simp at h
+      · exact absurd h2 h
+      · omega
+      · exact absurd h4 h
 
-/-- **the scan fails in one listing order iff it fails in every other** — for ALL directories, well formed or not: it
-fails exactly when some `.tinydiff` stem has no `#` or there are two `.tiny` files -/
-theorem scan_error_iff (dir : List (JStr × Bytes)) :
-    addFiles Graph.empty dir = none ↔ (dir.any badDiffName = true ∨ 2 ≤ (dirRoots dir).length) := by
-  rw [addFiles_none_iff]
-  simp [rootBit, Graph.empty]
-
-theorem scan_error_perm {dir dir' : List (JStr × Bytes)} (hp : dir'.Perm dir) :
-    addFiles Graph.empty dir' = none ↔ addFiles Graph.empty dir = none := by
-  rw [scan_error_iff, scan_error_iff]
-  have h1 : dir'.any badDiffName = dir.any badDiffName := by
-    cases h : dir.any badDiffName with
-    | true =>
-      rw [List.any_eq_true] at h ⊢
-      obtain ⟨x, hx, hb⟩ := h
-      exact ⟨x, hp.mem_iff.mpr hx, hb⟩
-    | false =>
-      rw [List.any_eq_false] at h ⊢
-      intro x hx
-      exact h x (hp.mem_iff.mp hx)
-  have h2 : (dirRoots dir').length = (dirRoots dir).length := (hp.filterMap _).length_eq
-  rw [h1, h2]
-
-/-- **order independence of the graph**: any two listing orders of a well-formed directory give the same lookup table,
-the same edge set and the same root -/
-theorem resolve_perm_partial {dir dir' : List (JStr × Bytes)} {g g' : Graph} (hp : dir'.Perm dir)
-    (hwf : WellFormedDir dir)
-    (h : addFiles Graph.empty dir = some g) (h' : addFiles Graph.empty dir' = some g') :
-    (∀ k, AList.lookup k g'.versions = AList.lookup k g.versions) ∧ g'.edges.Perm g.edges ∧ g'.root = g.root := by
-  have hwf' : WellFormedDir dir' := wellFormed_perm hp hwf
-  obtain ⟨hl, he, hr⟩ := graph_closed_form hwf h
-  obtain ⟨hl', he', hr'⟩ := graph_closed_form hwf' h'
-  refine ⟨?_, ?_, ?_⟩
+/-- **order independence of the graph** — full strength: any two listing orders of ANY directory give the same lookup
+table, the same nodes, the same edge set and the same root -/
+theorem scan_perm {dir dir' : List (JStr × Bytes)} {g g' : Graph} (hp : dir'.Perm dir)
+    (h : scan dir = some g) (h' : scan dir' = some g') :
+    (∀ k, AList.lookup k g'.versions = AList.lookup k g.versions) ∧ g'.nodes.Perm g.nodes ∧
+      g'.edges.Perm g.edges ∧ g'.root = g.root := by
+  have hs := scan_spec dir
+  have hs' := scanListed_spec_perm ((sortFiles_perm dir').trans hp)
+  rw [h] at hs
+  unfold scan at h'
+  rw [h'] at hs'
+  simp only at hs hs'
+  obtain ⟨_, _, _, _, h5, h6, h7, h8⟩ := hs
+  obtain ⟨_, _, _, _, h5', h6', h7', h8'⟩ := hs'
+  refine ⟨?_, ?_, h7'.trans h7.symm, h8'.trans h8.symm⟩
   · intro k
     cases hq : AList.lookup k g.versions with
     | some q =>
       obtain ⟨sp, n⟩ := q
-      obtain ⟨hn, hkk⟩ := (hl k sp n).mp hq
-      exact (hl' k sp n).mpr ⟨(dirVersions_perm hp n).mpr hn, hkk⟩
+      exact (h5' k sp n).mpr ((h5 k sp n).mp hq)
     | none =>
       cases hq' : AList.lookup k g'.versions with
       | none => rfl
       | some q =>
         obtain ⟨sp, n⟩ := q
-        obtain ⟨hn, hkk⟩ := (hl' k sp n).mp hq'
-        have := (hl k sp n).mpr ⟨(dirVersions_perm hp n).mp hn, hkk⟩
+        have := (h5 k sp n).mpr ((h5' k sp n).mp hq')
         rw [hq] at this; simp at this
-  · rw [he, he']
-    exact hp.filterMap _
-  · have hroots : (dirRoots dir').Perm (dirRoots dir) := hp.filterMap _
-    rcases hr with ⟨hn, hg⟩ | ⟨r, hn, hg⟩ <;> rcases hr' with ⟨hn', hg'⟩ | ⟨r', hn', hg'⟩
-    · rw [hg, hg']
-    · rw [hn, hn'] at hroots; simp at hroots
-    · rw [hn, hn'] at hroots; simp at hroots
-    · rw [hn, hn'] at hroots
-      have : r' = r := by simpa using hroots
-      rw [hg, hg', this]
+  · rw [List.perm_ext_iff_of_nodup h6'.2 h6.2]
+    intro n
+    rw [h6'.1 n, h6.1 n]
 
-/-- **order independence of `resolve`**: it fails in one listing order of a well-formed directory iff it fails in every
-other (scan errors, missing root, unreadable root, loop), and two successful runs agree on every lookup, on the edge set,
-on the root and on the root mappings -/
-theorem resolve_outcome_perm_partial (c : Content M D) {dir dir' : List (JStr × Bytes)} (hp : dir'.Perm dir)
-    (hwf : WellFormedDir dir) :
+/-- **order independence of `resolve`** — full strength, every directory `dir` and every permutation `dir'` of it: it
+fails in one listing order iff it fails in every other (bad diff name, ambiguous half, second root, second diff for an
+edge, missing root, unreadable root, loop), and two successful runs agree on every lookup, on the nodes, on the edge set, on
+the root and on the root mappings -/
+theorem resolve_perm (c : Content M D) {dir dir' : List (JStr × Bytes)} (hp : dir'.Perm dir) :
     (resolve c dir' = none ↔ resolve c dir = none) ∧
     ∀ r r', resolve c dir = some r → resolve c dir' = some r' →
-      (∀ k, get r' k = get r k) ∧ r'.graph.edges.Perm r.graph.edges ∧ r'.rootName = r.rootName ∧
-        r'.rootMapping = r.rootMapping := by
-  cases ha : addFiles Graph.empty dir with
+      (∀ k, get r' k = get r k) ∧ r'.graph.nodes.Perm r.graph.nodes ∧ r'.graph.edges.Perm r.graph.edges ∧
+        r'.rootName = r.rootName ∧ r'.rootMapping = r.rootMapping := by
+  cases ha : scan dir with
   | none =>
     have ha' := (scan_error_perm hp).mpr ha
     constructor
     · simp [resolve, ha, ha']
     · intro r r' h; simp [resolve, ha] at h
   | some g =>
-    cases ha' : addFiles Graph.empty dir' with
+    cases ha' : scan dir' with
     | none => rw [(scan_error_perm hp).mp ha'] at ha; simp at ha
     | some g' =>
-      obtain ⟨hl, he, hr⟩ := resolve_perm_partial hp hwf ha ha'
+      obtain ⟨hl, hn, he, hr⟩ := scan_perm hp ha ha'
       rw [resolve_of_scan c ha, resolve_of_scan c ha', hr]
       cases hroot : g.root with
       | none => simp
@@ -385,26 +505,30 @@ theorem resolve_outcome_perm_partial (c : Content M D) {dir dir' : List (JStr ×
             · intro r r' h h'
               simp only [Option.some.injEq] at h h'
               subst h; subst h'
-              exact ⟨fun k => by simp [VG.get, hl k], he, rfl, rfl⟩
+              exact ⟨fun k => by simp [VG.get, hl k], hn, he, rfl, rfl⟩
 
-/-- **order independence of the answers**: for a well-formed directory without duplicate file names the admissible
-answers for every version are the same in every listing order -/
-theorem answers_perm_partial (c : Content M D) {dir dir' : List (JStr × Bytes)} (hp : dir'.Perm dir)
-    (hwf : WellFormedDir dir) (hnd : (dir.map Prod.fst).Nodup) {r r' : Resolved M}
+/-- **a real directory resolves to literally the same value in every listing order** (node list and edge list in the
+same order as well): `resolve` sorts the listing, and a listing without repeated file names has one sorted form. Hence
+everything computed from the result — also by code that is not modelled here, like the choice `petgraph::astar` makes
+among equally short paths — is the same in every listing order -/
+theorem resolve_perm_eq (c : Content M D) {dir dir' : List (JStr × Bytes)} (hp : dir'.Perm dir)
+    (hnd : (dir.map Prod.fst).Nodup) : resolve c dir' = resolve c dir := by
+  unfold resolve scan
+  rw [sortFiles_eq_of_perm hp hnd]
+
+theorem resolved_noParallel (c : Content M D) {dir : List (JStr × Bytes)} {r : Resolved M}
+    (h : resolve c dir = some r) : NoParallel r.graph := by
+  obtain ⟨_, ha, _, _, _⟩ := resolve_some h
+  exact scanned_noParallel ha
+
+/-- **order independence of the answers** — full strength: the admissible answers for every version are the same in
+every listing order of every directory -/
+theorem answers_perm (c : Content M D) {dir dir' : List (JStr × Bytes)} (hp : dir'.Perm dir) {r r' : Resolved M}
     (h : resolve c dir = some r) (h' : resolve c dir' = some r') (target : JStr) :
     ∀ a, a ∈ applyDiffs c r' target ↔ a ∈ applyDiffs c r target := by
-  obtain ⟨_, he, hrn, hrm⟩ := (resolve_outcome_perm_partial c hp hwf).2 r r' h h'
-  obtain ⟨_, ha, _, _, _⟩ := resolve_some h
-  obtain ⟨_, ha', _, _, _⟩ := resolve_some h'
-  have hnd' : (dir'.map Prod.fst).Nodup := (hp.map _).nodup_iff.mpr hnd
-  have hnp : NoParallel r.graph := by
-    intro e1 h1 e2 h2
-    rw [(graph_closed_form hwf ha).2.1] at h1 h2
-    exact dirEdges_noParallel hnd e1 h1 e2 h2
-  have hnp' : NoParallel r'.graph := by
-    intro e1 h1 e2 h2
-    rw [(graph_closed_form (wellFormed_perm hp hwf) ha').2.1] at h1 h2
-    exact dirEdges_noParallel hnd' e1 h1 e2 h2
+  obtain ⟨_, _, he, hrn, hrm⟩ := (resolve_perm c hp).2 r r' h h'
+  have hnp := resolved_noParallel c h
+  have hnp' := resolved_noParallel c h'
   have hlive : ∀ e, e ∈ (live r'.graph).edges ↔ e ∈ (live r.graph).edges := by
     intro e
     simp only [live, liveEdges_of_noParallel hnp, liveEdges_of_noParallel hnp']
@@ -427,40 +551,54 @@ theorem answers_perm_partial (c : Content M D) {dir dir' : List (JStr × Bytes)}
   · intro ⟨p, hp1, hp2⟩
     exact ⟨p, (hsp p).mpr hp1, by rw [← hp2]; simp [applyAlong, hrm]⟩
 
-/-- the directory of the negative theorem: `b` is both a plain version and the server half of `a~b` -/
+/-! ## Regressions: the former order-dependence witness, and a half used as an alias -/
+
+/-- the directory of the former negative theorem: `b` is both a plain version string and the server half of `a~b` -/
 def collisionDir : List (JStr × Bytes) :=
   [(jstr "r.tiny", [0]), (jstr "r#a~b.tinydiff", [1]), (jstr "r#b.tinydiff", [2])]
 
-/-- **negative**: without `WellFormedDir` the graph depends on the listing order. Listing `collisionDir` forwards makes
-`b` an alias of the node `a~b` (one node below the root, two parallel edges), listing it backwards makes `b` a node of
-its own. (The property text calls a directory well formed when it has one root and `parent#child` diff files; this one
-has, so order independence as literally stated fails here.) -/
-theorem resolve_perm_collision_witness :
-    collisionDir.reverse.Perm collisionDir ∧ ¬ WellFormedDir collisionDir ∧
-    (addFiles Graph.empty collisionDir).map (fun g => (AList.lookup (jstr "b") g.versions, g.nodes.length)) =
-      some (some (Split.second, jstr "a~b"), 2) ∧
-    (addFiles Graph.empty collisionDir.reverse).map (fun g => (AList.lookup (jstr "b") g.versions, g.nodes.length)) =
-      some (some (Split.none, jstr "b"), 3) := by
-  refine ⟨List.reverse_perm _, ?_, by decide, by decide⟩
-  rw [← wellFormed_decidable]
+/-- **regression** (formerly `resolve_perm_collision_witness`: forwards `b` was the node `a~b`, backwards a node of its
+own). Now `b` stands for `a~b` in every listing order, which makes `r#a~b.tinydiff` and `r#b.tinydiff` two diffs for the one
+edge `r → a~b`: the directory is rejected, in both listing orders (and by `resolve_perm` in every other) -/
+theorem resolve_perm_collision_regression :
+    collisionDir.reverse.Perm collisionDir ∧
+    nodeOf (dirVersions collisionDir) (jstr "b") = jstr "a~b" ∧ DupEdges collisionDir ∧
+    scan collisionDir = none ∧ scan collisionDir.reverse = none := by
+  refine ⟨List.reverse_perm _, by decide, ?_, by decide, by decide⟩
+  rw [← dupEdges_decidable]
   decide
+
+/-- a diff names its parent `a~b` by the half `b` only -/
+def aliasDir : List (JStr × Bytes) :=
+  [(jstr "r.tiny", [0]), (jstr "r#a~b.tinydiff", [1]), (jstr "b#c.tinydiff", [2])]
+
+/-- **regression**: `b` is the node `a~b` (three nodes, the chain `r → a~b → c`) forwards and backwards — before the
+repair, listing `b#c.tinydiff` first made `b` a node of its own and left `a~b` without its second half -/
+theorem alias_regression :
+    (scan aliasDir).map (fun g => (AList.lookup (jstr "b") g.versions, g.nodes.length,
+        g.edges.map fun e => (e.parent, e.child))) =
+      some (some (Split.second, jstr "a~b"), 3, [(jstr "a~b", jstr "c"), (jstr "r", jstr "a~b")]) ∧
+    scan aliasDir.reverse = scan aliasDir := by
+  exact ⟨by decide, by decide⟩
 
 /-! ## Error shapes -/
 
 /-- **no root**: a directory without a `.tiny` file is rejected (any directory, any listing order) -/
 theorem no_root_is_error (c : Content M D) {dir : List (JStr × Bytes)} (h : dirRoots dir = []) :
     resolve c dir = none := by
-  cases ha : addFiles Graph.empty dir with
+  cases ha : scan dir with
   | none => simp [resolve, ha]
   | some g =>
     have : g.root = none := by
-      rw [addFiles_root_none dir ha h]; rfl
+      rcases (graph_closed_form ha).2.2.2.2 with ⟨_, hr⟩ | ⟨r, hr, _⟩
+      · exact hr
+      · rw [h] at hr; simp at hr
     rw [resolve_of_scan c ha, this]
 
 /-- **two roots**: a directory with two `.tiny` files is rejected (any directory, any listing order) -/
 theorem two_roots_is_error (c : Content M D) {dir : List (JStr × Bytes)} (h : 2 ≤ (dirRoots dir).length) :
     resolve c dir = none := by
-  have := (scan_error_iff dir).mpr (Or.inr h)
+  have := (scan_error_iff dir).mpr (Or.inr (Or.inr (Or.inl h)))
   simp [resolve, this]
 
 /-- a `.tinydiff` whose stem has no `#` is rejected (any directory, any listing order) -/
@@ -469,10 +607,24 @@ theorem bad_diff_name_is_error (c : Content M D) {dir : List (JStr × Bytes)} {f
   have := (scan_error_iff dir).mpr (Or.inl (List.any_eq_true.mpr ⟨f, hf, hb⟩))
   simp [resolve, this]
 
+/-- **ambiguous half**: two different `client~server` version strings with a common half are rejected (any directory, any
+listing order) instead of letting the first one in the listing own the half -/
+theorem ambiguous_is_error (c : Content M D) {dir : List (JStr × Bytes)} {v1 v2 k : JStr}
+    (h1 : v1 ∈ dirVersions dir) (h2 : v2 ∈ dirVersions dir) (s1 : isSplit v1 = true) (s2 : isSplit v2 = true)
+    (hne : v1 ≠ v2) (hk1 : k ∈ keysOf v1) (hk2 : k ∈ keysOf v2) : resolve c dir = none := by
+  have := (scan_error_iff dir).mpr (Or.inr (Or.inl ((ambiguous_iff _).mpr ⟨v1, v2, k, h1, h2, s1, s2, hne, hk1, hk2⟩)))
+  simp [resolve, this]
+
+/-- **second diff for an edge**: two diff files whose version strings stand for the same ordered pair of nodes are
+rejected (any directory, any listing order) instead of letting the last one in the listing win -/
+theorem second_diff_is_error (c : Content M D) {dir : List (JStr × Bytes)} (h : DupEdges dir) : resolve c dir = none := by
+  have := (scan_error_iff dir).mpr (Or.inr (Or.inr (Or.inr h)))
+  simp [resolve, this]
+
 /-- **cycle**: a cycle that can be reached from the root is rejected by `resolve` (with any amount of fuel: the
 recursion bound of the model never hides a loop) -/
 theorem cycle_is_error (c : Content M D) {dir : List (JStr × Bytes)} {g : Graph} {rootName : JStr} {rb : Bytes}
-    (ha : addFiles Graph.empty dir = some g) (hroot : g.root = some (rootName, rb))
+    (ha : scan dir = some g) (hroot : g.root = some (rootName, rb))
     (hcyc : ReachableCycle g rootName) : resolve c dir = none := by
   obtain ⟨v, p, q, hp, hq, hne⟩ := hcyc
   obtain ⟨p', hp', hlen⟩ := cycle_unbounded hp hq hne (g.edges.length + 1)
@@ -486,7 +638,7 @@ theorem cycle_is_error (c : Content M D) {dir : List (JStr × Bytes)} {g : Graph
 /-- **the loop check has no false alarms** (fuel sufficiency of the model's walk): a scanned directory with a readable
 root and no cycle reachable from the root resolves -/
 theorem acyclic_resolves (c : Content M D) {dir : List (JStr × Bytes)} {g : Graph} {rootName : JStr} {rb : Bytes}
-    {m : M} (ha : addFiles Graph.empty dir = some g) (hroot : g.root = some (rootName, rb))
+    {m : M} (ha : scan dir = some g) (hroot : g.root = some (rootName, rb))
     (hm : c.readRoot rb = some m) (hac : ¬ ReachableCycle g rootName) :
     resolve c dir = some { graph := g, rootName := rootName, rootMapping := m } := by
   have hw : walkOk g (g.edges.length + 1) [] rootName = true := by
@@ -510,6 +662,78 @@ theorem cycle_node_error (c : Content M D) {dir : List (JStr × Bytes)} {r : Res
   rw [h] at this
   simp at this
 
+/-- with well-formed diff names and at most one `.tiny` file, the scan fails iff a half is ambiguous or an edge has two
+diffs -/
+theorem ambiguous_or_second_diff_iff_error {dir : List (JStr × Bytes)} (hb : dir.any badDiffName = false)
+    (hr : (dirRoots dir).length ≤ 1) : scan dir = none ↔ (Ambiguous (dirVersions dir) ∨ DupEdges dir) := by
+  rw [scan_error_iff]
+  constructor
+  · intro h
+    rcases h with h | h | h | h
+    · rw [hb] at h; simp at h
+    · exact Or.inl h
+    · omega
+    · exact Or.inr h
+  · intro h
+    rcases h with h | h
+    · exact Or.inr (Or.inl h)
+    · exact Or.inr (Or.inr (Or.inr h))
+
+/-- **every way `resolve` can fail**, for every directory in every listing order: the four scan errors, no root, an
+unreadable root file, a cycle that can be reached from the root — and nothing else -/
+theorem resolve_error_iff (c : Content M D) (dir : List (JStr × Bytes)) :
+    resolve c dir = none ↔
+      (dir.any badDiffName = true ∨ Ambiguous (dirVersions dir) ∨ 2 ≤ (dirRoots dir).length ∨ DupEdges dir ∨
+        dirRoots dir = [] ∨
+        ∃ g rn rb, scan dir = some g ∧ g.root = some (rn, rb) ∧ (c.readRoot rb = none ∨ ReachableCycle g rn)) := by
+  cases ha : scan dir with
+  | none =>
+    have := (scan_error_iff dir).mp ha
+    constructor
+    · intro _
+      rcases this with h | h | h | h
+      · exact Or.inl h
+      · exact Or.inr (Or.inl h)
+      · exact Or.inr (Or.inr (Or.inl h))
+      · exact Or.inr (Or.inr (Or.inr (Or.inl h)))
+    · intro _; simp [resolve, ha]
+  | some g =>
+    have hno : ¬ (dir.any badDiffName = true ∨ Ambiguous (dirVersions dir) ∨ 2 ≤ (dirRoots dir).length ∨
+        DupEdges dir) := by
+      intro h
+      rw [(scan_error_iff dir).mpr h] at ha
+      simp at ha
+    have hcf := (graph_closed_form ha).2.2.2.2
+    constructor
+    · intro hres
+      right; right; right; right
+      rcases hcf with ⟨hnil, _⟩ | ⟨r, hr, hroot⟩
+      · exact Or.inl hnil
+      · right
+        refine ⟨g, _, _, rfl, hroot, ?_⟩
+        cases hm : c.readRoot r.2 with
+        | none => exact Or.inl rfl
+        | some m =>
+          right
+          cases Classical.em (ReachableCycle g (nodeOf (dirVersions dir) r.1)) with
+          | inl h => exact h
+          | inr h =>
+            rw [acyclic_resolves c ha hroot hm h] at hres
+            simp at hres
+    · intro h
+      rcases h with h | h | h | h | h | ⟨g', rn, rb, hg, hroot, h⟩
+      · exact absurd (Or.inl h) hno
+      · exact absurd (Or.inr (Or.inl h)) hno
+      · exact absurd (Or.inr (Or.inr (Or.inl h))) hno
+      · exact absurd (Or.inr (Or.inr (Or.inr h))) hno
+      · exact no_root_is_error c h
+      · simp only [Option.some.injEq] at hg
+        subst hg
+        rcases h with h | h
+        · rw [resolve_of_scan c ha, hroot]
+          simp [h]
+        · exact cycle_is_error c ha hroot h
+
 /-! ## Non-vacuity -/
 
 /-- a diamond `r -> a~x -> c`, `r -> b -> c` plus a stray file, in some listing order -/
@@ -524,21 +748,41 @@ def traceContent : Content (List Nat) Nat where
   apply d m := some (m ++ [d])
   extend m := some (m ++ [100])
 
-example : WellFormedDir exampleDir ∧ (exampleDir.map Prod.fst).Nodup := by
-  refine ⟨(wellFormed_decidable _).mp (by decide), by decide⟩
+example : (exampleDir.map Prod.fst).Nodup := by decide
 
+/-- nodes in the order the sorted listing creates them (`a~x` in the first pass) -/
 example :
     (resolve traceContent exampleDir).map (fun r => (r.graph.nodes, get r (jstr "x"), r.graph.edges.length, r.rootName,
       applyDiffs traceContent r (jstr "c"), applyDiffs traceContent r (jstr "b"), applyDiffs traceContent r (jstr "q"),
       depth r (jstr "c"))) =
-    some ([jstr "c", jstr "a~x", jstr "r", jstr "b"], some (Split.second, jstr "a~x"), 4, jstr "r",
+    some ([jstr "a~x", jstr "c", jstr "b", jstr "r"], some (Split.second, jstr "a~x"), 4, jstr "r",
       [some [0, 2, 1, 100], some [0, 4, 3, 100]], [some [0, 4, 100]], [], 2) := by
   rfl
 
-/-- the same files listed backwards: same admissible answers (in another order) -/
+/-- the same files listed backwards: the same value (`resolve_perm_eq`) -/
+example : resolve traceContent exampleDir.reverse = resolve traceContent exampleDir :=
+  resolve_perm_eq traceContent (List.reverse_perm _) (by decide)
+
+/-- a half shared by two `client~server` strings in each of its places (`a~b` with `c~b`, `b~c`, `a~c`, `b~a`), a half
+that is `a~a`'s only key, and a second diff for the edge `r → a~b` spelled `r#a`: rejected, forwards and backwards; the
+hypotheses of `ambiguous_is_error` are satisfiable -/
 example :
-    (resolve traceContent exampleDir.reverse).map (fun r => applyDiffs traceContent r (jstr "c")) =
-    some [some [0, 4, 3, 100], some [0, 2, 1, 100]] := by
+    (∀ other, other ∈ [jstr "r#c~b.tinydiff", jstr "r#b~c.tinydiff", jstr "r#a~c.tinydiff", jstr "r#b~a.tinydiff",
+        jstr "a~a#b.tinydiff", jstr "r#a.tinydiff"] →
+      scan [(jstr "r.tiny", [0]), (jstr "r#a~b.tinydiff", [1]), (other, [2])] = none ∧
+      scan [(other, [2]), (jstr "r#a~b.tinydiff", [1]), (jstr "r.tiny", [0])] = none) ∧
+    (jstr "a~b" ∈ dirVersions [(jstr "r.tiny", [0]), (jstr "r#a~b.tinydiff", [1]), (jstr "r#c~b.tinydiff", [2])] ∧
+      isSplit (jstr "a~b") = true ∧ jstr "b" ∈ keysOf (jstr "a~b") ∧ jstr "b" ∈ keysOf (jstr "c~b")) := by
+  decide
+
+/-- not ambiguous: the same `client~server` string in several file names, its halves as names of their own, `a~a` -/
+example :
+    (scan [(jstr "b#c.tinydiff", [3]), (jstr "a~b#d.tinydiff", [2]), (jstr "r#a~b.tinydiff", [1]), (jstr "r.tiny", [0]),
+      (jstr "a#e~e.tinydiff", [4])]).map (fun g => (g.nodes, AList.lookup (jstr "a") g.versions,
+        AList.lookup (jstr "e") g.versions, g.edges.map fun e => (e.parent, e.child))) =
+    some ([jstr "e~e", jstr "a~b", jstr "d", jstr "c", jstr "r"], some (Split.first, jstr "a~b"),
+      some (Split.first, jstr "e~e"),
+      [(jstr "a~b", jstr "e~e"), (jstr "a~b", jstr "d"), (jstr "a~b", jstr "c"), (jstr "r", jstr "a~b")]) := by
   rfl
 
 /-- a cycle below the root is rejected; a cycle the root cannot reach is not, its versions have no answer -/
@@ -547,6 +791,6 @@ example :
       (jstr "b#a.tinydiff", [3])] = none ∧
     (resolve traceContent [(jstr "r.tiny", [0]), (jstr "c#b.tinydiff", [2]), (jstr "b#c.tinydiff", [3])]).map
       (fun r => applyDiffs traceContent r (jstr "b")) = some [] := by
-  exact ⟨rfl, rfl⟩
+  exact ⟨by decide, by decide⟩
 
 end Thm.C05
